@@ -110,7 +110,7 @@ func newC13Sys() *c13Sys {
 		}
 		c13T = t
 	}
-	m, err := larking.NewMux(append(append([]larking.MuxOption{}, c13T.opts...), larking.MaxReceiveMessageSizeOption(96))...)
+	m, err := larking.NewMux(append(append([]larking.MuxOption{}, c13T.opts...), larking.MaxReceiveMessageSizeOption(256))...) // above the pool's buffer sizes, or nothing is ever recycled
 	if err != nil {
 		panic(err)
 	}
@@ -122,7 +122,7 @@ func newC13Sys() *c13Sys {
 }
 
 // c13Kinds: request kinds chosen to collide on bytesPool, bufPool and the gzip pools.
-var c13Kinds = []string{"http-json", "http-json-gzip", "http-body", "http-upload", "grpc", "grpc-gzip", "web", "http-stream-gzip"}
+var c13Kinds = []string{"http-json", "http-json-gzip", "http-body", "http-upload", "grpc", "grpc-gzip", "web", "http-stream-gzip", "http-stream-2in1"}
 
 func c13Payload(thread int, size int) []byte {
 	b := make([]byte, size)
@@ -158,7 +158,13 @@ func c13Request(s *c13Sys, thread int, kind string, size int) string {
 	case "http-body":
 		res = doHTTPSched(s.mux, "POST", "/t/raw/"+tag, http.Header{"Content-Type": {"text/plain"}}, body(c13Payload(thread, size)))
 	case "http-upload":
-		res = doHTTPSched(s.mux, "POST", "/t/up/"+tag, http.Header{"Content-Type": {"text/plain"}}, body(c13Payload(thread, 2*size+7)))
+		sc.MaxRead = 150
+		res = doHTTPSched(s.mux, "POST", "/t/up/"+tag, http.Header{"Content-Type": {"text/plain"}}, body(c13Payload(thread, 300+size)))
+	case "http-stream-2in1":
+		// two JSON messages delivered by a single Read: the second one waits in the stream's look-ahead
+		sc.MaxRead = 0
+		two := append(append([]byte{}, js...), js...)
+		res = doHTTPSched(s.mux, "POST", "/t/bidi", http.Header{"Content-Type": {"application/json"}}, body(two))
 	case "http-stream-gzip":
 		two := append(append([]byte{}, js...), js...)
 		res = doHTTPSched(s.mux, "POST", "/t/bidi", http.Header{"Content-Type": {"application/json"}, "Content-Encoding": {"gzip"}}, body(gzipBytes(two)))
@@ -345,7 +351,7 @@ func c13Scenarios(thorough bool) []*e3Scenario {
 	pairs := [][2]string{
 		{"http-json", "http-json"}, {"http-json-gzip", "http-json-gzip"}, {"http-body", "http-upload"}, {"grpc", "grpc-gzip"},
 		{"grpc-gzip", "grpc-gzip"}, {"http-stream-gzip", "http-json-gzip"}, {"web", "http-json"}, {"http-upload", "http-upload"},
-		{"grpc-gzip", "http-json-gzip"}, {"http-body", "grpc"},
+		{"grpc-gzip", "http-json-gzip"}, {"http-body", "grpc"}, {"http-stream-2in1", "http-json"}, {"http-stream-2in1", "grpc"},
 	}
 	if thorough {
 		pairs = nil
@@ -371,7 +377,7 @@ func runC13(c *Ctx) {
 	if c.Thorough() {
 		bound, per = 3, 8*time.Minute
 	}
-	r.Rule(fmt.Sprintf("pairs (thorough: all 36 pairs and two triples) of concurrent requests over kinds {HTTP JSON, HTTP JSON with gzip body, HttpBody unary echo, HttpBody chunked upload, gRPC identity, gRPC gzip bidi, gRPC-web, HTTP JSON stream with gzip body} with distinct self-describing payloads on one Mux with a small receive limit; scheduling points: pool Get/Put (plus the environment answer 'pool emptied by GC'), WaitGroup ops, every body Read (24-byte chunks) and response Write, handler steps; every interleaving with at most %d deviations (preemptions + pool-emptied answers), bounds iterated from 0; oracle per schedule: every response and every handler-seen message equals the request's solo run, request messages retained by handlers are unchanged at the end, no panic, no deadlock; plus the free-running -race pass over the same bodies", bound))
+	r.Rule(fmt.Sprintf("pairs (thorough: all 45 pairs and two triples) of concurrent requests over kinds {HTTP JSON, HTTP JSON with gzip body, HttpBody unary echo, HttpBody chunked upload, gRPC identity, gRPC gzip bidi, gRPC-web, HTTP JSON stream with gzip body, HTTP JSON stream with two messages in one read} with distinct self-describing payloads on one Mux with a small receive limit; scheduling points: pool Get/Put (plus the environment answer 'pool emptied by GC'), WaitGroup ops, every body Read (24-byte chunks) and response Write, handler steps; every interleaving with at most %d deviations (preemptions + pool-emptied answers), bounds iterated from 0; oracle per schedule: every response and every handler-seen message equals the request's solo run, request messages retained by handlers are unchanged at the end, no panic, no deadlock; plus the free-running -race pass over the same bodies", bound))
 	r.Assume("proxied streams are covered by C10's scenarios and its -race pass", "races inside grpc-go / net/http are outside the scheduler")
 	runScenarios(c, c13Scenarios(c.Thorough()), bound, per, 0)
 	if c.Shards == 0 {
